@@ -23,7 +23,7 @@ Ltac zcases :=
 
 Lemma rstep_inv s l : rinv s -> rinv (fst (rstep s l)).
 Proof.
-  intros (H0 & Hz & Hp). destruct l as [h|h|c]; cbn [rstep]; zcases; unfold rinv; cbn [fst cnt ar nopen];
+  intros (H0 & Hz & Hp). destruct l as [h|h|c|e]; cbn [rstep]; zcases; unfold rinv; cbn [fst cnt ar nopen];
     repeat split; intros; try lia; auto; try (f_equal; lia); try (rewrite Hp by lia; f_equal; lia).
 Qed.
 
@@ -49,7 +49,7 @@ Qed.
 Lemma rstep_uopen s l a :
   In (UOpen a) (snd (rstep s l)) <-> (exists h, l = ROpen h) /\ cnt s = 0 /\ a = nopen s.
 Proof.
-  destruct l as [h|h|c]; cbn [rstep].
+  destruct l as [h|h|c|e]; cbn [rstep].
   - destruct (Z.eqb_spec (cnt s + 1) 1) as [E|E]; cbn.
     + split.
       * intros [H|[H|[]]]; [|discriminate]. inversion H; subst. repeat split; eauto; lia.
@@ -59,13 +59,14 @@ Proof.
     + destruct (cnt s =? 0); cbn; [tauto|]. destruct (cnt s - 1 =? 0); cbn; [intros [H|[]]; discriminate | tauto].
     + intros ([h' Hh] & _); discriminate.
   - cbn. split; [intros [H|[]]; discriminate | intros ([h' Hh] & _); discriminate].
+  - cbn. split; [intros [] | intros ([h' Hh] & _); discriminate].
 Qed.
 
 (* the underlying Close is called exactly at the 1 -> 0 transition *)
 Lemma rstep_uclose s l :
   In UClose (snd (rstep s l)) <-> (exists h, l = RClose h) /\ cnt s = 1.
 Proof.
-  destruct l as [h|h|c]; cbn [rstep].
+  destruct l as [h|h|c|e]; cbn [rstep].
   - split.
     + destruct (cnt s + 1 =? 1); cbn; [intros [H|[H|[]]]; discriminate | intros [H|[]]; discriminate].
     + intros ([h' Hh] & _); discriminate.
@@ -75,6 +76,7 @@ Proof.
       * split; [intros _; split; eauto; lia | auto].
       * split; [tauto | intros (_ & Hc); lia].
   - cbn. split; [intros [H|[]]; discriminate | intros ([h' Hh] & _); discriminate].
+  - cbn. split; [intros [] | intros ([h' Hh] & _); discriminate].
 Qed.
 
 (* a close when the count is 0 changes nothing and calls nothing *)
@@ -108,7 +110,7 @@ Definition busy (s : rst) : Z := if 0 <? cnt s then 1 else 0.
 Lemma rstep_balance s l :
   0 <= cnt s -> nuo (snd (rstep s l)) - nuc (snd (rstep s l)) = busy (fst (rstep s l)) - busy s.
 Proof.
-  intros H0. unfold busy. destruct l as [h|h|c]; cbn [rstep].
+  intros H0. unfold busy. destruct l as [h|h|c|e]; cbn [rstep].
   - destruct (Z.eqb_spec (cnt s + 1) 1) as [E|E]; cbn.
     + destruct (Z.ltb_spec 0 (cnt s + 1)); destruct (Z.ltb_spec 0 (cnt s)); lia.
     + destruct (Z.ltb_spec 0 (cnt s + 1)); destruct (Z.ltb_spec 0 (cnt s)); lia.
@@ -116,6 +118,7 @@ Proof.
     destruct (Z.eqb_spec (cnt s - 1) 0) as [E1|E1]; cbn.
     + destruct (Z.ltb_spec 0 (cnt s - 1)); destruct (Z.ltb_spec 0 (cnt s)); lia.
     + destruct (Z.ltb_spec 0 (cnt s - 1)); destruct (Z.ltb_spec 0 (cnt s)); lia.
+  - cbn. lia.
   - cbn. lia.
 Qed.
 
@@ -152,7 +155,7 @@ Lemma hstep_cnt s l held :
   match l with RClose h => In h held \/ held = [] | _ => True end ->
   cnt (fst (rstep s l)) = Z.of_nat (length (hstep held l)).
 Proof.
-  intros (H0 & _) Hc Hl. destruct l as [h|h|c]; cbn [rstep hstep].
+  intros (H0 & _) Hc Hl. destruct l as [h|h|c|e]; cbn [rstep hstep].
   - destruct (Z.eqb_spec (cnt s + 1) 1); cbn [fst cnt length]; lia.
   - destruct (Z.eqb_spec (cnt s) 0) as [E|E]; cbn [fst].
     + destruct held as [|x held']; [cbn; lia | cbn [length] in Hc; lia].
@@ -160,6 +163,7 @@ Proof.
       rewrite (remove1_length _ _ Hin).
       assert (length held <> 0)%nat by (destruct held; [destruct Hin | discriminate]).
       destruct (Z.eqb_spec (cnt s - 1) 0); cbn [fst cnt]; lia.
+  - cbn. exact Hc.
   - cbn. exact Hc.
 Qed.
 
